@@ -81,6 +81,10 @@ func valueOf(style string, j int) string {
 		return fmt.Sprintf("a\x00b%d", j)
 	case "quote":
 		return fmt.Sprintf("q\"%d\"\n", j)
+	case "concatA": // with column "a": ("a","bx") has the same concatenation as ("ab","x")
+		return []string{"bx", "b", "bxy", "c"}[j%4]
+	case "concatAB":
+		return []string{"x", "", "xy", "c"}[j%4]
 	default:
 		return fmt.Sprintf("%d", j)
 	}
@@ -135,7 +139,7 @@ func (d *DataSpec) Materialize() []map[string]string {
 	return out
 }
 
-var identNames = []string{"a", "b", "c", "country", "x1", "Tag", "k_2", "z", "col9", "Q"}
+var identNames = []string{"a", "b", "c", "country", "x1", "Tag", "k_2", "z", "col9", "Q", "count", "ab"}
 var oddNames = []string{"", " ", "a b", "ü", "\xff\x00x"[0:1], "a=b", "\"", "0col", "a,b"}
 
 // genDataSpecUTF8 is genDataSpec restricted to identifier column names and valid UTF-8 values.
@@ -191,6 +195,12 @@ func genDataSpecN(r *Rng, n int, identOnly bool) *DataSpec {
 	}
 	if r.Chance(1, 4) {
 		d.TrailingEmpty = 1 + r.Intn(3)
+	}
+	if r.Chance(1, 7) && !used["a"] && !used["ab"] {
+		// prefix-related column names whose values complete the same concatenation: only the 0x00 separator in
+		// the value index keeps ("a","bx") and ("ab","x") apart
+		d.Cols = append(d.Cols, ColSpec{Name: hx("a"), NVals: 4, Dist: "random", Style: "concatA", Missing: 30},
+			ColSpec{Name: hx("ab"), NVals: 4, Dist: "random", Style: "concatAB", Missing: 30})
 	}
 	return d
 }
